@@ -141,3 +141,255 @@ theorem validate_cycle (g : Grammar) (sh : Shell) (n : String) (h : commandOf g 
   | ok order => exact absurd hro (cycle_no_order _ v hcyc order)
 
 end Complgen.Check
+
+/-! ### the converse: the traversal only fails on a real cycle -/
+namespace Complgen.Check
+open Complgen
+
+/-- consecutive vertices of the list are joined by dependency edges -/
+def IsPath (G : Graph) : List String → Prop
+  | [] => True
+  | [_] => True
+  | a :: b :: rest => b ∈ kids G a ∧ IsPath G (b :: rest)
+
+theorem isPath_snoc (G : Graph) : ∀ (l : List String) (v c : String), IsPath G l → l.getLast? = some v →
+    c ∈ kids G v → IsPath G (l ++ [c])
+  | [], v, c, _, h, _ => by simp at h
+  | [a], v, c, _, h, hk => by
+    simp at h; subst h
+    exact ⟨hk, trivial⟩
+  | a :: b :: rest, v, c, hp, h, hk => by
+    have h' : (b :: rest).getLast? = some v := by simpa [List.getLast?_cons_cons] using h
+    exact ⟨hp.1, isPath_snoc G (b :: rest) v c hp.2 h' hk⟩
+
+/-- along a path, the first vertex reaches the last one -/
+theorem reach_along (G : Graph) : ∀ (l : List String) (a v : String), IsPath G (a :: l) → l ≠ [] →
+    (a :: l).getLast? = some v → Reach G a v
+  | [], a, v, _, h, _ => absurd rfl h
+  | [b], a, v, hp, _, hl => by
+    simp at hl; subst hl
+    exact .step hp.1
+  | b :: c :: rest, a, v, hp, _, hl => by
+    have h' : (b :: c :: rest).getLast? = some v := by simpa [List.getLast?_cons_cons] using hl
+    exact .trans (.step hp.1) (reach_along G (c :: rest) b v hp.2 (by simp) h')
+
+theorem isPath_suffix (G : Graph) : ∀ (pre l : List String), IsPath G (pre ++ l) → IsPath G l
+  | [], l, h => h
+  | [a], [], _ => trivial
+  | [a], b :: rest, h => h.2
+  | a :: b :: pre, l, h => isPath_suffix G (b :: pre) l h.2
+
+/-- a child of the last vertex of a path that already lies on the path closes a cycle -/
+theorem cycle_of_back_edge (G : Graph) (pn : List String) (v c : String) (hp : IsPath G pn)
+    (hl : pn.getLast? = some v) (hk : c ∈ kids G v) (hc : c ∈ pn) : Reach G c c := by
+  obtain ⟨pre, post, e⟩ := List.append_of_mem hc
+  have hsuf : IsPath G (c :: post) := isPath_suffix G pre (c :: post) (by rw [← e]; exact hp)
+  have hlast : (c :: post).getLast? = some v := by
+    rw [e] at hl
+    simpa [List.getLast?_append] using hl
+  by_cases hpost : post = []
+  · subst hpost
+    simp at hlast; subst hlast
+    exact .step hk
+  · exact .trans (reach_along G post c v hsuf hpost hlast) (.step hk)
+
+def DfsErrSpec (G : Graph) (fuel : Nat) : Prop :=
+  ∀ (v : String) (path : List (String × Span)) (st : DfsState) (e : List Span),
+    IsPath G (path.map (·.1)) → (path.map (·.1)).getLast? = some v →
+    dfs G fuel v path st = .error e → ∃ u, Reach G u u
+
+theorem go_err (G : Graph) (fuel : Nat) (ih : DfsErrSpec G fuel) (v : String) (path : List (String × Span))
+    (hp : IsPath G (path.map (·.1))) (hl : (path.map (·.1)).getLast? = some v) :
+    ∀ (rest : List (String × Span)) (st : DfsState) (e : List Span), (∀ c ∈ rest.map (·.1), c ∈ kids G v) →
+      dfs.go G fuel v path rest st = .error e → ∃ u, Reach G u u
+  | [], st, e, _, h => by rw [dfs.go.eq_1] at h; cases h
+  | (c, sp) :: rest, st, e, hrest, h => by
+    rw [dfs.go.eq_2] at h
+    have hck : c ∈ kids G v := hrest c (by simp)
+    have hrest' : ∀ c' ∈ rest.map (·.1), c' ∈ kids G v := fun c' hc' => hrest c' (by simp at hc' ⊢; exact .inr hc')
+    by_cases hpa : (path.any fun x => x.1 == c) = true
+    · exact ⟨c, cycle_of_back_edge G _ v c hp hl hck ((any_fst_iff path c).mp hpa)⟩
+    · simp only [hpa, if_false] at h
+      by_cases hv : st.visited.contains c = true
+      · simp only [hv, if_true] at h
+        exact go_err G fuel ih v path hp hl rest st e hrest' h
+      · simp only [hv, if_false] at h
+        cases hd : dfs G fuel c (path ++ [(c, sp)]) st with
+        | error e' =>
+          have hpn : (path ++ [(c, sp)]).map (·.1) = path.map (·.1) ++ [c] := by simp
+          exact ih c (path ++ [(c, sp)]) st e' (by rw [hpn]; exact isPath_snoc G _ v c hp hl hck)
+            (by rw [hpn]; simp) hd
+        | ok st1 =>
+          rw [hd] at h
+          simp only at h
+          exact go_err G fuel ih v path hp hl rest _ e hrest' h
+
+theorem dfs_err : ∀ (G : Graph) (fuel : Nat), DfsErrSpec G fuel
+  | G, 0 => by
+    intro v path st e _ _ h
+    rw [dfs.eq_1] at h; cases h
+  | G, fuel + 1 => by
+    intro v path st e hp hl h
+    rw [dfs.eq_2] at h
+    exact go_err G fuel (dfs_err G fuel) v path hp hl ((G.get? v).getD []) _ e (fun c hc => hc) h
+
+theorem loop_err (defs : AList (Span × Expr)) (G : Graph) (n : Nat) :
+    ∀ (l : List String) (st : DfsState) (e : List Span),
+      resolutionOrder.loop defs G n l st = .error e → ∃ u, Reach G u u
+  | [], st, e, h => by unfold resolutionOrder.loop at h; cases h
+  | v :: rest, st, e, h => by
+    unfold resolutionOrder.loop at h
+    by_cases hv : st.visited.contains v = true
+    · simp only [hv, if_true] at h
+      exact loop_err defs G n rest st e h
+    · simp only [hv, if_false] at h
+      generalize hsp : (((defs.get? v).map (·.1)).getD default) = sp at h
+      cases hd : dfs G n v [(v, sp)] st with
+      | error e' => exact dfs_err G n v [(v, sp)] st e' trivial (by simp) hd
+      | ok st1 =>
+        rw [hd] at h
+        simp only at h
+        exact loop_err defs G n rest _ e h
+
+/-- **The traversal fails only when the definitions really refer to each other in a circle.** -/
+theorem resolutionOrder_error_cycle (D : AList (Span × Expr)) (spans : List Span)
+    (h : resolutionOrder D = .error spans) : ∃ u, Reach (depGraph D) u u := by
+  unfold resolutionOrder at h
+  by_cases he : D.isEmpty = true
+  · simp only [he, if_true] at h; cases h
+  · have he' : D.isEmpty = false := by simpa using he
+    simp only [he', Bool.false_eq_true, if_false] at h
+    generalize hl : (roots (depGraph D) ++ List.filter (fun v => !(roots (depGraph D)).contains v)
+      (List.map (fun x => x.1) (depGraph D))) = l at h
+    cases hloop : resolutionOrder.loop D (depGraph D) ((depGraph D).length + 1) l ⟨[], []⟩ with
+    | error e => exact loop_err D (depGraph D) _ l _ e hloop
+    | ok st => rw [hloop] at h; cases h
+
+end Complgen.Check
+
+/-! ### the cycle verdict of `validate` -/
+namespace Complgen.Check
+open Complgen
+
+theorem commandOf_not_cycle (g : Grammar) (c : ErrClass) (s : List Span) (h : commandOf g = .err c s) :
+    c ≠ .nonterminalDefinitionsCycle := by
+  unfold commandOf at h
+  split at h
+  · cases h; intro e; cases e
+  · simp only at h
+    split at h
+    · cases h; intro e; cases e
+    · split at h
+      · cases h; intro e; cases e
+      · split at h
+        · cases h; intro e; cases e
+        · cases h
+
+theorem collectPlain_not_cycle : ∀ (l : List (String × Span × Expr)) (acc : AList (Span × Expr)) (c : ErrClass)
+    (s : List Span), collectPlain l acc = .err c s → c ≠ .nonterminalDefinitionsCycle
+  | [], acc, c, s, h => by unfold collectPlain at h; cases h
+  | (n, sp, e) :: rest, acc, c, s, h => by
+    unfold collectPlain at h
+    split at h
+    · cases h; intro e; cases e
+    · exact collectPlain_not_cycle rest _ c s h
+
+theorem loop1_not_cycle (target : Shell) : ∀ (l : List (String × Span × String × Span × Expr)) (acc : AList UserSpec)
+    (c : ErrClass) (s : List Span), getSpecializations.loop1 target l acc = .err c s → c ≠ .nonterminalDefinitionsCycle
+  | [], acc, c, s, h => by unfold getSpecializations.loop1 at h; cases h
+  | (n, sp, shn, ss, rhs) :: rest, acc, c, s, h => by
+    unfold getSpecializations.loop1 at h
+    split at h
+    · split at h
+      · cases h; intro e; cases e
+      · split at h
+        · exact loop1_not_cycle target rest acc c s h
+        · split at h
+          · cases h; intro e; cases e
+          · exact loop1_not_cycle target rest _ c s h
+    · cases h; intro e; cases e
+
+theorem loop2_not_cycle (specs : AList UserSpec) : ∀ (l : List (String × Span × Expr)) (acc : AList (String × Span))
+    (c : ErrClass) (s : List Span), getSpecializations.loop2 specs l acc = .err c s → c ≠ .nonterminalDefinitionsCycle
+  | [], acc, c, s, h => by unfold getSpecializations.loop2 at h; cases h
+  | (n, sp, rhs) :: rest, acc, c, s, h => by
+    unfold getSpecializations.loop2 at h
+    split at h
+    · exact loop2_not_cycle specs rest acc c s h
+    · split at h
+      · split at h
+        · cases h; intro e; cases e
+        · exact loop2_not_cycle specs rest _ c s h
+      · cases h; intro e; cases e
+
+theorem getSpecializations_not_cycle (g : Grammar) (sh : Shell) (c : ErrClass) (s : List Span)
+    (h : getSpecializations g sh = .err c s) : c ≠ .nonterminalDefinitionsCycle := by
+  unfold getSpecializations at h
+  cases h1 : getSpecializations.loop1 sh (specDefs g) [] with
+  | err c' s' => rw [h1] at h; simp only at h; cases h; exact loop1_not_cycle sh _ _ c s h1
+  | crash s' => rw [h1] at h; cases h
+  | ok sp =>
+    rw [h1] at h
+    simp only at h
+    cases h2 : getSpecializations.loop2 sp (plainDefs g) [] with
+    | err c' s' => rw [h2] at h; simp only at h; cases h; exact loop2_not_cycle sp _ _ c s h2
+    | crash s' => rw [h2] at h; cases h
+    | ok fbs => rw [h2] at h; cases h
+
+/-- **The cycle verdict is only given for a real cycle**: when the model of check.rs rejects a grammar
+with "nonterminal definitions cycle", the (specialised) definitions do refer to each other in a
+circle. -/
+theorem validate_cycle_real (g : Grammar) (sh : Shell) (spans : List Span)
+    (h : validate g sh = .err .nonterminalDefinitionsCycle spans) :
+    ∃ u, Reach (depGraph (tableOf sh g)) u u := by
+  unfold validate at h
+  cases hcmd : commandOf g with
+  | err c s => rw [hcmd] at h; simp only at h; cases h; exact absurd rfl (commandOf_not_cycle g _ _ hcmd)
+  | crash s => rw [hcmd] at h; cases h
+  | ok command =>
+    rw [hcmd] at h
+    simp only at h
+    by_cases hnd : ((plainDefs g).map (·.1)).Nodup
+    · rw [collectPlain_spec (plainDefs g) [] (fun _ _ => rfl) hnd] at h
+      simp only [List.nil_append] at h
+      cases hgs : getSpecializations g sh with
+      | err c s => rw [hgs] at h; simp only at h; cases h; exact absurd rfl (getSpecializations_not_cycle g sh _ _ hgs)
+      | crash s => rw [hgs] at h; cases h
+      | ok r =>
+        obtain ⟨specs, fbs⟩ := r
+        rw [hgs] at h
+        simp only at h
+        cases hro : resolutionOrder (tableOf sh g) with
+        | error sp => exact resolutionOrder_error_cycle _ sp hro
+        | ok order =>
+          -- the traversal succeeded: the only other verdict of this stage is about spaces inside words
+          exfalso
+          unfold finishValidate at h
+          simp only at h
+          have hD : (((plainDefs g).map fun x => (x.1, (x.2.1, x.2.2))).map fun x => (x.1, x.2.1, distribute x.2.2)) =
+              (plainDefs g).map fun x => (x.1, (x.2.1, distribute x.2.2)) := by
+            simp [List.map_map, Function.comp_def]
+          rw [hD] at h
+          have hdefined : (((plainDefs g).map fun x => (x.1, (x.2.1, distribute x.2.2))).map (·.1)) =
+              (plainDefs g).map (·.1) := by simp [List.map_map, Function.comp_def]
+          rw [hdefined] at h
+          have hb0 : SameCmds specs (⟨specs, ((plainDefs g).map fun x => (x.1, (x.2.1, distribute x.2.2))).map
+              fun x => (x.1, x.2.1)⟩ : Book) := fun _ => rfl
+          have hf1 := specFold_table g sh specs fbs hgs ((plainDefs g).map fun x => (x.1, (x.2.1, distribute x.2.2)))
+            ([], ⟨specs, ((plainDefs g).map fun x => (x.1, (x.2.1, distribute x.2.2))).map fun x => (x.1, x.2.1)⟩) hb0
+          generalize hr1 : ((plainDefs g).map fun x => (x.1, (x.2.1, distribute x.2.2))).foldl
+            (specStep sh fbs ((plainDefs g).map (·.1)))
+            ([], ⟨specs, ((plainDefs g).map fun x => (x.1, (x.2.1, distribute x.2.2))).map fun x => (x.1, x.2.1)⟩) = r1 at h hf1
+          have htable : r1.1 = tableOf sh g := by
+            rw [hf1.1]
+            unfold tableOf
+            simp [List.map_map, Function.comp_def]
+          rw [htable, hro] at h
+          simp only at h
+          split at h <;> cases h
+    · obtain ⟨sp, he⟩ := collectPlain_dup (plainDefs g) [] (.inr hnd)
+      rw [he] at h
+      simp only at h
+      cases h
+
+end Complgen.Check
